@@ -192,3 +192,25 @@ Theorem C01_wiring_facts :
   gen_c01_aead_open_no_associated_data = true.
 Proof. repeat split; try reflexivity; discriminate. Qed.
 Print Assumptions C01_wiring_facts.
+
+(** (4) Every responder derives from an ephemeral keypair generated by a
+    direct crypto.GenerateEphemeralKeypair() call in the open handler itself
+    and stored nowhere else (a cached responder keypair lets a relay that
+    replays a recorded STREAM_OPEN reproduce the session key with a fresh
+    receive window, so the recorded data frames are accepted again); (5) the
+    UDP and ICMP exits make an association visible to the datagram path only
+    after the key exchange (otherwise the keyless pass-through applies to a
+    session that negotiates a key); (6) only the unordered datagram types take
+    the parallel lane of the peer read loop. *)
+Definition fresh_ok (r : string * string * bool) : bool := let '(_, _, b) := r in b.
+
+Definition sublist_of (allowed l : list string) : bool :=
+  forallb (fun x => existsb (String.eqb x) allowed) l.
+
+Theorem C01_open_handler_facts :
+  gen_c01_responder_fresh_keypair <> [] /\ forallb fresh_ok gen_c01_responder_fresh_keypair = true /\
+  gen_c01_register_after_key_exchange <> [] /\ forallb fresh_ok gen_c01_register_after_key_exchange = true /\
+  gen_c01_fast_lane_types_recognised = true /\
+  sublist_of ["FrameUDPDatagram"; "FrameICMPEcho"]%string gen_c01_fast_lane_types = true.
+Proof. repeat split; try reflexivity; discriminate. Qed.
+Print Assumptions C01_open_handler_facts.
